@@ -42,7 +42,10 @@ def semaphoreExpected : List (String × String × String × String × List Strin
    ("Semaphore", "try_acquire_arc", "count", "compare_exchange_weak", ["count", "count - 1"]),
    ("Semaphore", "add_permits", "count", "fetch_add", ["n"]),
    ("Semaphore", "add_permits", "event", "notify", ["n"]),
+   -- the forwarding of a consumed notification (fix 196e88b; not reachable with atomic polls)
+   ("AcquireInner", "poll_with_strategy", "event", "notify", ["1"]),
    ("AcquireInner", "poll_with_strategy", "event", "listen", []),
+   ("AcquireArcInner", "poll_with_strategy", "event", "notify", ["1"]),
    ("AcquireArcInner", "poll_with_strategy", "event", "listen", []),
    ("SemaphoreGuard", "drop", "count", "fetch_add", ["1"]),
    ("SemaphoreGuard", "drop", "event", "notify", ["1"]),
